@@ -612,3 +612,5 @@ func runC05(c *Ctx) {
 	}
 	_ = fmt.Sprintf
 }
+
+func stdPriv(k edKey) interface{} { return ed25519.PrivateKey(k.priv) }
